@@ -32,12 +32,14 @@ KERNELS = [
     dict(name="K_relaxation", file=OSSPS, cxx_name="OSSPSReconstruction<TargetT>::update_estimate: iteration number used in the relaxation statement",
          func=r"OSSPSReconstruction<TargetT>::update_estimate\(TargetT& current_image_estimate\)",
          span=(r"const float relaxation_parameter\s*=", r";"),
-         c_header="int K_relaxation(const int subiteration_num, const int num_subsets)", loops=0,
-         post="return relaxation_iteration;",
+         c_header="int K_relaxation(const int subiteration_num, const int num_subsets, const int start_subiteration_num)", loops=0,
+         post="return relaxation_iteration;", inline_local_consts=True,
          # the statement has the shape  alpha / (1 + gamma * (N_EXPR))  (counted rule = static fact); the kernel is N_EXPR
          rules=[(r"const float relaxation_parameter\s*=\s*this->relaxation_parameter / \(1 \+ this->relaxation_gamma \* \((.*)\)\);",
                  r"const int relaxation_iteration = (\1);", 1),
-                (r"this->subiteration_num\b", "subiteration_num", 1), (r"this->num_subsets\b", "num_subsets", 1)]),
+                (r"this->subiteration_num\b|this->get_subiteration_num\(\)", "subiteration_num", (1, 3)),
+                (r"this->start_subiteration_num\b|this->get_start_subiteration_num\(\)", "start_subiteration_num", (0, 3)),
+                (r"this->num_subsets\b|this->get_num_subsets\(\)", "num_subsets", (1, 2))]),
     dict(name="K_ossps_clamp_tail", file=OSSPS, cxx_name="OSSPSReconstruction<TargetT>::update_estimate: block after the additive update ('now threshold image')",
          func=r"OSSPSReconstruction<TargetT>::update_estimate\(TargetT& current_image_estimate\)",
          span=(r"\{\s*const float current_min\b", r"\n  \}"),
@@ -128,8 +130,18 @@ import subprocess
 
 def replay(job, o, workroot, repo):
     if "relaxation" in job.name:
-        return {"status": "unavailable", "detail": "the relaxation statement is local to update_estimate (needs a complete reconstruction object); the failing input is "
-                                                  "explicit: any sub-iteration number that is a multiple of num_subsets"}
+        # resume clause: a run resumed at sub-iteration k+1 must continue the schedule of the uninterrupted run
+        from vlib import native
+        exe = os.path.join(workroot, "c08_ossps_replay")
+        if not os.path.exists(exe):
+            exe, info = native.build(repo, os.path.join(VERIF, "replay", "c08_ossps.cpp"), exe)
+            if not exe:
+                return {"status": "unavailable", "detail": "replay driver did not build: " + info}
+        st, detail = native.run(exe, [], timeout=900)
+        if st == "confirmed":
+            return {"status": "confirmed", "detail": detail, "command": "c08_ossps_replay", "from_verifier_counterexample": False}
+        return {"status": "not-reproduced", "detail": "c08_ossps_replay: 4 OSSPS configurations, resumed vs uninterrupted run (" + str(detail)[:120] + "); the relaxation statement "
+                                                      "itself is local to update_estimate"}
     exe = os.path.join(workroot, "c08_replay")
     if not os.path.exists(exe):
         cmd = ["g++", "-std=c++17", "-g", "-O1", "-DNDEBUG", "-I", os.path.join(repo, "src/include"), "-I", os.path.join(repo, "_build/src/include"),
